@@ -3,7 +3,7 @@
 (* pydoctor.model : the object tree and the name registry, as pure         *)
 (* operators over a registry state record                                  *)
 (*                                                                         *)
-(*   st = [ objs  : Seq([cls, name, par, site])   object table, id = index *)
+(*   st = [ objs  : Seq([cls, name, par, site, dmod])  object table, id = index *)
 (*          cont  : Seq(name :> id)                Documentable.contents    *)
 (*          ord   : Seq(Seq(name))                 insertion order of cont  *)
 (*          all   : (qualified name) :> id         System.allobjects        *)
@@ -69,7 +69,7 @@ SetAlias(st, o, n, v) == [st EXCEPT !.alias[o] = Put(@, n, v), !.aord[o] = OrdPu
 \* ---------------------------------------------------------------- System.addObject (+ handleDuplicate)
 AddObj(st, cls, name, par, site) ==
   LET o     == Len(st.objs) + 1
-      objs1 == Append(st.objs, [cls |-> cls, name |-> P(name), par |-> par, site |-> site])
+      objs1 == Append(st.objs, [cls |-> cls, name |-> P(name), par |-> par, site |-> site, dmod |-> NoObj])
       cont0 == Append(st.cont, Empty)
       ord0  == Append(st.ord, <<>>)
       cont1 == IF par = NoObj THEN cont0 ELSE [cont0 EXCEPT ![par] = Put(@, name, o)]
@@ -98,12 +98,17 @@ AddObj(st, cls, name, par, site) ==
              ord2  == IF stray THEN [ord1 EXCEPT ![pp] = OrdDel(@, pn)] ELSE ord1
          IN [base EXCEPT !.objs = objs2, !.all = Put(a2, key, o), !.cont = cont2, !.ord = ord2]
 
+\* Documentable.parentMod of an object that has not been moved: the nearest enclosing module
+RECURSIVE ModOf(_, _)
+ModOf(st, o) == IF o = NoObj THEN NoObj ELSE IF IsModCls(Cls(st, o)) THEN o ELSE ModOf(st, st.objs[o].par)
+
 \* ---------------------------------------------------------------- Documentable.reparent(new_parent, new_name)
 Reparent(st, ob, np, nn) ==
   LET sub   == Sub(st, ob)
       op    == st.objs[ob].par
       on    == st.objs[ob].name.b
-      objs0 == [st.objs EXCEPT ![ob].par = np, ![ob].name = P(nn)]
+      \* Documentable.definingMod: the module the object is moved out of the FIRST time (where its source is written)
+      objs0 == [st.objs EXCEPT ![ob].par = np, ![ob].name = P(nn), ![ob].dmod = IF @ = NoObj THEN ModOf(st, ob) ELSE @]
       a0    == Unreg(st.all, st.objs, sub)
       key   == FullNameIn(ob, objs0)
       \* the name is in use in the new parent: the resident is superseded like by a redefinition (handleDuplicate)
@@ -162,15 +167,18 @@ BoundIn(st, c, n, lin) ==
      ELSE LET b == seq[CHOOSE i \in hits : \A j \in hits : i <= j]
           IN IF n \in DOMAIN st.cont[b] THEN FN(st, st.cont[b][n]) ELSE st.alias[b][n]
 
+\* the scope enclosing the statement that defines o: its parent - or, for an object that a re-export has moved, the module it
+\* is written in (what its body, annotations and docstring name are globals of THAT module)
+Outer(st, o) == IF st.objs[o].dmod # NoObj THEN st.objs[o].dmod ELSE st.objs[o].par
 \* Module/Class/Inheritable._localNameToFullName
 RECURSIVE L2F(_, _, _)
 L2F(st, o, n) ==
   IF Cls(st, o) \in Scopes
     THEN IF n \in DOMAIN st.cont[o] THEN FN(st, st.cont[o][n])
          ELSE IF n \in DOMAIN st.alias[o] THEN st.alias[o][n]
-         ELSE IF Cls(st, o) = "Class" THEN L2F(st, st.objs[o].par, n)
+         ELSE IF Cls(st, o) = "Class" THEN L2F(st, Outer(st, o), n)
          ELSE <<P(n)>>
-    ELSE L2F(st, st.objs[o].par, n)
+    ELSE L2F(st, Outer(st, o), n)
 
 \* Documentable.expandName
 RECURSIVE Exp(_, _, _, _, _)
